@@ -493,6 +493,11 @@ impl Sched {
                     return Some(path.join("; "));
                 }
                 Status::WantLock(l) => match st.owner.get(&l.id) {
+                    Some(o) if *o == t => {
+                        // a std Mutex locked again by the thread that holds it never returns
+                        path.push(format!("{} wants {} which it holds itself (self-deadlock)", ti.name, short(l.class)));
+                        return Some(path.join("; "));
+                    }
                     Some(o) if *o != t => {
                         path.push(format!("{} wants {} held by {}", ti.name, short(l.class), st.threads[*o].name));
                         t = *o;
